@@ -99,6 +99,14 @@ def parseUnw (j : Json) : Unwrapped String :=
   | "empty" => .empty
   | _ => .refused
 
+def openedToJson : Opened String → Json
+  | .ok hs b => Json.mkObj [("r", "ok"), ("header", jstrs hs), ("body", match b with | some e => Json.str e | none => Json.null)]
+  | .refused => Json.mkObj [("r", "refused")]
+def parseOpened (j : Json) : Opened String :=
+  match strD j "r" with
+  | "ok" => .ok (strList j "header") (str? j "body")
+  | _ => .refused
+
 def destToJson : ArtDest String → Json
   | .dest l => Json.mkObj [("r", "dest"), ("loc", Json.str l)]
   | .noEndpoint => Json.mkObj [("r", "none")]
@@ -247,12 +255,14 @@ def handle (line : Json) : Json :=
     let t := text c "txt"
     let inflate := tableFn c "inflate"
     let b := strD c "binding"
-    let m := if b == "redirect" then unravelRedirect inflate t else if b == "post" then unravelPost inflate t else unravelArtifact t
+    let kind : BindingKind := if b == "redirect" then .redirect else if b == "post" then .post
+      else if b == "artifact" then .artifact else if b == "uri" || b == "none" then .plain else .unknown
+    let m := unravel inflate kind t
     let want := hex? c "expect"
     let iv := hex? impl "out"
     let ok (o : Option Bytes) : Bool := match want with | some w => o == some w | none => true
     res (Json.mkObj [("out", jhexOpt m)])
-      ("unravel/" ++ b ++ (if m.isNone then "/refused" else if b == "post" then
+      ("unravel/" ++ b ++ (if kind == .unknown then "/unknown-binding/refused" else if m.isNone then "/refused" else if b == "post" then
         (if ((b64decodeStr t).bind inflate).isSome then "/inflated" else "/plain") else "/ok")) (ok m) (ok iv)
   | "redirect" =>
     let typ := text c "typ"; let msg := text c "msg"; let loc := text c "loc"; let rs := text c "rs"
@@ -339,6 +349,64 @@ def handle (line : Json) : Json :=
           | none => "no-body"
           | some [_] => (match out with | .elem _ => "ok" | _ => "wrong-tag")
           | some _ => "children!=1")) true true
+  | "soap_open" =>
+    -- header-carrying SOAP: wrap an element + header blocks, open with `parse_soap_message`
+    let t := strD c "tree"
+    let hdrs := strList c "headers"
+    let unknown := strList c "unknown"
+    let known : String → Bool := fun e => !unknown.contains e
+    let env := soapWrapTree hdrs t
+    let out := soapOpenTree known env
+    let model := Json.mkObj [("env", envToJson env), ("opened", openedToJson out)]
+    let ienv := (obj? impl "env").map parseEnv
+    let iout := parseOpened ((obj? impl "opened").getD Json.null)
+    let specImpl := match ienv with
+      | none => false
+      | some e => specSoapOpen known hdrs t e iout
+    res model ("soap_open/" ++ (if hdrs.isEmpty then "no-header" else "headers=" ++ toString (min hdrs.length 3)) ++
+        (match out with | .ok _ _ => "/ok" | .refused => "/unknown-class"))
+      (specSoapOpen known hdrs t env out) specImpl
+  | "soap_open_foreign" =>
+    -- no envelope tree at all (the text is not XML): `XmlParseError`
+    if (obj? c "env").isNone then res (Json.mkObj [("opened", openedToJson (.refused : Opened String))]) "soap_open_foreign/not-xml/refused" true true else
+    let env := parseEnv ((obj? c "env").getD Json.null)
+    let unknown := strList c "unknown"
+    let known : String → Bool := fun e => !unknown.contains e
+    let out := soapOpenTree known env
+    let nBody := (env.parts.filter fun p => match p with | .body _ => true | _ => false).length
+    let nHeader := (env.parts.filter fun p => match p with | .header _ => true | _ => false).length
+    res (Json.mkObj [("opened", openedToJson out)])
+      ("soap_open_foreign/" ++ (if !env.tagOk then "wrong-root" else if env.parts.isEmpty then "no-parts"
+        else match out with
+          | .refused => "refused/bodies=" ++ toString (min nBody 2)
+          | .ok _ b => "ok/bodies=" ++ toString (min nBody 2) ++ "/headers=" ++ toString (min nHeader 2) ++
+              (if b.isNone then "/no-body" else "")))
+      (specSoapOpenForeign env out) (specSoapOpenForeign env (parseOpened ((obj? impl "opened").getD Json.null)))
+  | "uri" =>
+    let typ := text c "typ"; let msg := text c "msg"; let loc := text c "loc"
+    let viaEntity := strD c "via" == "apply_binding"      -- `apply_binding(BINDING_URI, …)` hands no relay state on
+    let rs := if viaEntity then [] else text c "rs"
+    let pts := points (strD c "msg")
+    match useHttpUri typ pts msg loc rs with
+    | none => res (Json.mkObj [("r", Json.null)]) "uri/unknown-typ" true true
+    | some (.response data) =>
+      let model := Json.mkObj [("r", "response"), ("data", Json.str (ofPoints data)), ("unraveled", Json.str (ofPoints data))]
+      let idata := (str? impl "data").map points
+      let specImpl := match idata with
+        | none => false
+        | some d => specUriResponse pts d && (str? impl "unraveled").map points == some d
+      res model ("uri/response/" ++ (if pts.contains 10 then "second-line" else if data == pts then "whole" else "stripped"))
+        (specUriResponse pts data) specImpl
+    | some (.request url) =>
+      let ps := parseQsl (queryOf url)
+      let model := Json.mkObj [("r", "request"), ("url", jhex url), ("params", pairsToJson ps)]
+      let specImpl := match hex? impl "url" with
+        | none => false
+        | some u => specUriRequest msg loc rs u &&
+            (loc.contains 63 || loc.contains 35 || msg.isEmpty || pairsOf impl "params" == some (withRelay (sID, msg) rs))
+      res model ("uri/request" ++ (if rs.isEmpty then "" else "+relay") ++
+          (if loc.contains 63 || loc.contains 35 then "/dest-with-query-or-fragment" else "/plain-dest"))
+        (specUriRequest msg loc rs url) specImpl
   | "artifact" =>
     let eid := text c "entity_id"
     let handle := (hex? c "handle").getD []
